@@ -16,9 +16,9 @@ from vf.seq import outcome
 PROP = "C15"
 LEVEL = "exploration"
 RULE = ("Buffer and PrintBuffer: all n! arrival orders for n<=7 (quick) / n<=8 (thorough), each with 3 seeded choices "
-        "of drain points (after every arrival / random subset / only at the end), with unique payloads and with falsy / empty payloads (None, 0, '', blank lines), plus seeded orders up to n=200; "
+        "of drain points (after every arrival / random subset / only at the end), with unique payloads and with falsy / empty payloads (None, 0, '', blank lines), plus seeded orders up to n=200 and in-order / window-shuffled streams of 300-700 items (serials beyond the small-int cache); "
         "then flush()/clear() and a second round on the same object. CircularBuffer: capacities 1..9, seeded "
-        "put/clear sequences, every index in [-c-2, c+2] probed after every step. distinct_nontrivial = distinct "
+        "put/clear sequences, every index in [-c-2, c+2] probed after every step, `in` / index / count of current, overwritten, cleared and never-put values compared with the list model. distinct_nontrivial = distinct "
         "(structure, arrival order, drain pattern) resp. (capacity, content) cases with >=2 items.")
 ASSUMPTIONS = [
     "a drain is a complete iteration of the Buffer (the way imap uses it); abandoned half-consumed drain generators "
@@ -244,12 +244,14 @@ def run_circular(cap, ops):
     from windpyutils.structures.circular_buffer import CircularBuffer
     cb = CircularBuffer(cap)
     hist = []
+    ever = []
     if cb.max_size != cap:
         return "circular", f"max_size={cb.max_size}, constructed with {cap}"
     for step, (op, val) in enumerate(ops):
         if op == "put":
             r = outcome(lambda: cb.put(val))
             hist.append(val)
+            ever.append(val)
         else:
             r = outcome(lambda: cb.clear())
             hist = []
@@ -270,6 +272,14 @@ def run_circular(cap, ops):
         if want:
             if (want[-1] in cb) is not True or ("absent" in cb) is not False or list(reversed(cb)) != want[::-1]:
                 return "circular-content", f"capacity {cap}: membership/reversed disagree with content {want}"
+        # the sequence views (in, index, count) present the same content: items overwritten or cleared away and the
+        # never-put None are absent
+        for x in [None] + ever[-(2 * cap + 2):]:
+            g = (outcome(lambda: x in cb), outcome(lambda: cb.index(x)), outcome(lambda: cb.count(x)))
+            w = (("ok", x in want), ("ok", want.index(x)) if x in want else ("exc", "ValueError"), ("ok", want.count(x)))
+            if g != w:
+                return "circular-content", (f"capacity {cap}, presented content {want} (earlier puts: {ever[-(2 * cap + 2):]}): "
+                                            f"(in, index, count) of {x!r} -> {g}, a list gives {w}")
     return None
 
 
@@ -296,6 +306,16 @@ def run_shard(spec):
         for n in ((1500, 5000) if tier == "quick" else (1500, 5000, 20000)):
             yield list(range(1, n)) + [0]
             yield list(range(n - 1, -1, -1))
+        # long streams in order / in small shuffled windows: serial numbers far beyond the range of small cached ints,
+        # also given as ints computed at run time (int(str)) - equal numbers that are different objects
+        for n in ((300, 700) if tier == "quick" else (300, 700, 3000)):
+            yield [int(str(i)) for i in range(n)]
+            p = [int(str(i)) for i in range(n)]
+            for w in range(0, n - 8, 8):
+                win = p[w:w + 8]
+                rng.shuffle(win)
+                p[w:w + 8] = win
+            yield p
         for _ in range(300 if tier == "quick" else 3000):
             n = rng.choice([9, 12, 20, 50, 100, 200])
             p = list(range(n))
